@@ -226,7 +226,14 @@ func genC11(r *prng.R, i int) Scenario {
 // duplicate entry names: the same child listed twice, or two pool members sharing a name
 func genC11Dup(r *prng.R, i int) Scenario {
 	sc := Scenario{ID: fmt.Sprintf("c11dup-%d", i), Family: "c11dup"}
-	switch i % 3 {
+	switch i % 4 {
+	case 3: // old [a,b], new [a,a2]: a2 is a distinct runnable whose String() is a's (blocking Stop)
+		sc.Pool = randPool(r, 3, "S", 5)
+		sc.Pool[2].Name = 0
+		sc.Pool[2].Style = "U"
+		sc.Init = []Entry{{0, 0}, {1, 0}}
+		sc.Ops = []Op{{Op: "run"}, {Op: "wait"}, {Op: "reload", Cb: "some", Cfg: []Entry{{0, 1}, {2, 1}}}, {Op: "wait"},
+			{Op: "stop"}, {Op: "wait"}, {Op: "end"}}
 	case 0: // old [a,b], new [a,a]
 		sc.Pool = randPool(r, 2, "S", 5)
 		sc.Init = []Entry{{0, 0}, {1, 0}}
@@ -258,6 +265,9 @@ func genC09(r *prng.R, i int) Scenario {
 	}
 	cur := randSubset(r, n-1, 1+r.Intn(n-1))
 	sc.Init = seqEntries(r, cur)
+	if r.Chance(1, 5) { // an old child that returns a real error when it is stopped
+		sc.Pool[cur[0]].Exit = "E"
+	}
 	ops := []Op{{Op: "run"}, {Op: "wait"}}
 	if r.Chance(1, 4) { // an earlier unparked reload
 		cur, _ = nextCfg(r, n-1, cur)
@@ -355,5 +365,37 @@ func genStale(i int) Scenario {
 		{Op: "reload", Cb: "some", Cfg: []Entry{{0, 1}}}, {Op: "waitpark"},
 		{Op: "reload", Cb: "some", Cfg: last}, {Op: "waitpark"},
 		{Op: "release"}, {Op: "wait"}, {Op: "stop"}, {Op: "wait"}, {Op: "end"}}
+	return sc
+}
+
+// a child failure racing a membership-changing reload: an OLD child returns a real error when the
+// reload stops it (exit style "E"), the reloader is parked at one of its steps, so Run's
+// failure teardown meets the reload in progress; the new configuration contains a never-started
+// child with a blocking Stop.
+func genErrWin(r *prng.R, i int) Scenario {
+	subs := []string{"Config updated", "Updating config after stopping", "Starting child runnables",
+		"Membership change detected", "All child runnables launched"}
+	sub := subs[i%len(subs)]
+	sc := Scenario{ID: fmt.Sprintf("errwin-%d", i), Family: "errwin"}
+	n := 3
+	sc.Pool = randPool(r, n, "S", 8)
+	sc.Pool[0].Exit = "E"
+	sc.Pool[n-1].Style = "U" // the child added by the reload blocks in Stop until its Run is over
+	if i%4 == 3 {
+		sc.Pool[n-1] = ChildSpec{Name: n - 1, Style: "U", Exit: "F", RK: "P", Nested: true}
+	}
+	sc.Init = []Entry{{0, 0}, {1, 0}}
+	var nc []Entry
+	switch (i / len(subs)) % 3 {
+	case 0:
+		nc = []Entry{{0, 1}, {1, 1}, {2, 1}} // grow
+	case 1:
+		nc = []Entry{{2, 1}} // replace
+	default:
+		nc = []Entry{{1, 1}, {2, 1}} // drop the failing child, add a new one
+	}
+	sc.Ops = []Op{{Op: "run"}, {Op: "wait"}, {Op: "park", Sub: sub},
+		{Op: "reload", Cb: "some", Cfg: nc}, {Op: "waitpark"}, {Op: "release"}, {Op: "wait"},
+		{Op: "stop"}, {Op: "wait"}, {Op: "end"}}
 	return sc
 }
